@@ -2071,7 +2071,7 @@ theorem d8_txByIdx_r {id : BlockId} (r : RetainedId db nd id) (i : Int) :
       simp only [Option.map_some, pr_txAt_r p hE] <;> (first | done | mrfl)
   | number n =>
     simp only [D8.transactionByBlockIDAndIndex, V8.transactionByBlockIDAndIndex, hi, if_false,
-      pr_txAt_r p (show db.prunedBelow ≤ n from r)]
+      pr_txAt_r p (show db.prunedBelow ≤ n from r)] <;> (first | done | mrfl)
   | hash x =>
     simp only [D8.transactionByBlockIDAndIndex, V8.transactionByBlockIDAndIndex, hi, if_false,
       pr_numberByHash_r p (fun n hn => Nat.le_succ_of_le (r n hn))]
@@ -2124,5 +2124,109 @@ theorem d8_stateMethods_r {id : BlockId} (r : RetainedStateId db nd id) (be : Ba
     mrfl
 
 end pruned2
+
+/-- `withIdD` against `withIdV` when the handlers agree on the one identifier the raw argument
+decodes to (or it decodes to none). -/
+theorem withIdD_ans_at (cfg : Cfg) (ver : Ver) (p : Bool) (raw : RawId) (k : BlockId → DAns) (k' : BlockId → Ans)
+    (h : ∀ id, unmarshalBlockIDV cfg ver raw = .ok id → k id = .ans (k' id)) :
+    withIdD cfg ver p raw k = .ans (withIdV cfg ver p raw k') := by
+  cases raw <;> simp only [withIdD, withIdV] <;> (repeat' split) <;> simp_all
+
+
+/-! ### the legacy last-update log cut at the floor, exactly -/
+
+theorem lastLoggedRev_le (m : Nat) : ∀ (bs : List Block) (a k : Nat), (∀ c ∈ bs, c.number ≤ m) → lastLoggedRev bs a k ≤ m
+  | [], _, _, _ => Nat.zero_le _
+  | b :: older, a, k, h => by
+    have ih := lastLoggedRev_le m older a k (fun c hc => h c (List.mem_cons_of_mem _ hc))
+    have hb := h b (List.mem_cons_self ..)
+    simp only [lastLoggedRev]
+    split
+    · split
+      · exact ih
+      · exact hb
+    · exact ih
+
+/-- The legacy per-slot history log cut at the pruning floor, exactly: along a list of blocks with
+strictly decreasing numbers (newest first) the cut log gives the uncut log's answer when that is at
+or above the floor, and 0 ("never updated") when it lies below. -/
+theorem lastLoggedRevFrom_exact (e : Nat) : ∀ (bs : List Block) (a k : Nat),
+    bs.Pairwise (fun x y => y.number < x.number) →
+    Db.lastLoggedRevFrom e bs a k = if e ≤ lastLoggedRev bs a k then lastLoggedRev bs a k else 0
+  | [], _, _, _ => by simp [Db.lastLoggedRevFrom, lastLoggedRev]
+  | b :: older, a, k, h => by
+    rw [List.pairwise_cons] at h
+    have ih := lastLoggedRevFrom_exact e older a k h.2
+    by_cases hb : b.number < e
+    · have hle : lastLoggedRev (b :: older) a k ≤ b.number :=
+        lastLoggedRev_le b.number (b :: older) a k (by
+          intro c hc
+          rcases List.mem_cons.mp hc with rfl | hc
+          · exact Nat.le_refl _
+          · exact Nat.le_of_lt (h.1 c hc))
+      have : ¬ e ≤ lastLoggedRev (b :: older) a k := by omega
+      simp [Db.lastLoggedRevFrom, hb, this]
+    · simp only [Db.lastLoggedRevFrom, hb, if_false]
+      cases hl : lookup3 b.diff.storage a k with
+      | none =>
+        have hx : lastLoggedRev (b :: older) a k = lastLoggedRev older a k := by simp only [lastLoggedRev, hl]
+        rw [hx]; exact ih
+      | some v =>
+        by_cases hc : (v == 0 && storageIn older.reverse a k == 0) = true
+        · have hx : lastLoggedRev (b :: older) a k = lastLoggedRev older a k := by simp only [lastLoggedRev, hl, hc, if_true]
+          rw [hx]; simpa only [hc, if_true] using ih
+        · have hx : lastLoggedRev (b :: older) a k = b.number := by simp [lastLoggedRev, hl, hc]
+          have : e ≤ b.number := by omega
+          rw [hx]; simp [hc, this]
+
+theorem wf_take_pairwise {nd : Node} (wf : WellFormed nd) (m : Nat) :
+    (nd.chain.take m).reverse.Pairwise (fun x y => y.number < x.number) := by
+  rw [List.pairwise_reverse, List.pairwise_iff_getElem]
+  intro i j hi hj hij
+  have e1 : nd.chain[i]? = some (nd.chain.take m)[i] := by
+    have := List.getElem?_eq_getElem hi
+    rw [List.getElem?_take] at this
+    split at this
+    · exact this
+    · cases this
+  have e2 : nd.chain[j]? = some (nd.chain.take m)[j] := by
+    have := List.getElem?_eq_getElem hj
+    rw [List.getElem?_take] at this
+    split at this
+    · exact this
+    · cases this
+  rw [wf i _ e1, wf j _ e2]
+  exact hij
+
+theorem v10_state_blocks {be : Backend} {nd : Node} {id : BlockId} {st : StateRef}
+    (h : V10.stateByBlockID be nd id = .ok st) : ∃ m, st.blocks = nd.chain.take m := by
+  have hnum : ∀ n, stateAtNumber nd n = .ok st → ∃ m, st.blocks = nd.chain.take m := by
+    intro n hn
+    simp only [stateAtNumber] at hn
+    split at hn
+    · cases hn; exact ⟨n + 1, rfl⟩
+    · cases hn
+  cases id with
+  | pre => cases h
+  | latest =>
+    simp only [V10.stateByBlockID, headState] at h
+    split at h
+    · cases h
+    · cases h; exact ⟨nd.chain.length, by simp⟩
+  | hash x =>
+    simp only [V10.stateByBlockID, stateAtBlockHash] at h
+    split at h
+    · cases be <;> cases h
+      · exact ⟨0, by simp⟩
+      · exact ⟨nd.chain.length, by simp⟩
+    · split at h
+      · cases h
+      · exact hnum _ h
+  | number n => exact hnum n h
+  | l1Accepted =>
+    simp only [V10.stateByBlockID] at h
+    split at h
+    · cases h
+    · exact hnum _ h
 
 end Juno.C08
